@@ -95,6 +95,7 @@ struct Slot {
     bool live = false;
     template <typename T> T& as() { return *reinterpret_cast<T*>(buf); }
 };
+static_assert(std::is_same<tlx::counting_ptr<Obj>, PM>::value && std::is_same<tlx::reference_counter, tlx::ReferenceCounter>::value, "the std-like aliases");
 static_assert(sizeof(PM) == sizeof(PC) && sizeof(PM) == sizeof(PN) && sizeof(PM) == sizeof(PB), "one pointer each");
 
 struct Machine {
